@@ -346,6 +346,14 @@ def softOutAll (s : S) : S := (idxs s).foldl softOut s
 /-- sReset with address "all": softResetIn over all peers, then softResetOut over all peers -/
 def softBothAll (s : S) : S := softOutAll (softInAll s)
 
+/-- The premise behind "a soft reset out / ROUTE-REFRESH / initial transfer of a peer is ONE
+    step": getBestFromLocalCallback(peer, families, addEOR, routeRefresh, fn) takes the peer's
+    routeRefreshInProgress WRITE lock iff `routeRefresh` is true, and the incremental fan-out
+    toward the peer runs under the READ lock. A call whose callback sends what it computed
+    (`sends`) is atomic w.r.t. the fan-out only with the write lock (`write`); display-only calls
+    (ListPath adj-out, counters) may use the read lock. Checked against the Go AST on every run. -/
+def lockOk (sends write : Bool) : Bool := !sends || write
+
 inductive SOp where
   | up (idx : Nat)
   | down (idx : Nat)
